@@ -161,6 +161,37 @@ CLAIMED["C10"] = dict(
     technique="algebraic value numbering; total derivative of an energy functional; substitution of the condensed solution",
 )
 
+CLAIMED["C13"] = dict(
+    category="proof",
+    text="The six face / rotated-cell tables (boundary_cells_quad/8/9, hexahedron/20/27), extracted by evaluating the functions from source, "
+    "are checked against the matching element class's reference points: every rotated cell is the reference cell re-parametrised by a "
+    "proper rotation (signed permutation matrix, det +1), its listed face nodes are exactly the nodes of the facet xi_last = -1, the "
+    "faces are pairwise distinct and cover all sides. RegionBoundary._init_faces on a symbolic Jacobian: dA orthogonal to the facet with "
+    "dA . dX/dxi_last == -det(dXdr) w (outward for positive volumes), unit normals, unit tangents orthogonal to dA, ensure_3d padding. "
+    "RegionBoundary.__init__ on distorted two-cell meshes of all six cell types with exact rational coordinates: surface = faces whose "
+    "node set occurs once, mask = faces all of whose points satisfy it (only_surface on/off x 3 masks), area vectors sum to zero and "
+    "the flux of the position vector equals dim * volume exactly.",
+    design_ref="DESIGN.md section 3, C13",
+    note="Closure on every valid mesh follows from the per-face rotation property and the divergence theorem (stated, not mechanised); "
+    "it is additionally verified exactly on one distorted two-cell mesh per cell type.",
+    technique="constant-table analysis with exact rational geometry; algebraic value numbering of _init_faces",
+)
+CLAIMED["C16"] = dict(
+    category="proof",
+    text="triangulate tables (quad; hexahedron modes 0 and 3): positive sub-cells, volumes sum to the cell, conforming tiling; flip: "
+    "orientation-reversing for all five listed cell types, masks; mirror keeps positive orientation and volume for exact rational unit "
+    "normals; expand / revolve: corner Jacobians of generated cells == base Jacobian * layer thickness / 2 with symbolic base "
+    "coordinates and thickness, layer numbering, revolved cells positive incl. the closed 360 degree case; collect_edges/faces/volumes, "
+    "add_midpoints_*, convert: vertex sets are exactly the edges / faces / cell, inserted points are centroids of all their vertices "
+    "(symbolic coordinates), and on the reference cell the result is the target element's point table in order (triangle6, tetra10, "
+    "quad8/9, hexahedron20/27); line / rectangle / cube generators with symbolic bounds; translate, rotate (distances preserved for a "
+    "symbolic angle); concatenate, stack, dual, merge_duplicate_points bookkeeping.",
+    design_ref="DESIGN.md section 3, C16",
+    note="Not decided: Circle / Triangle generators (scipy griddata), the rounding-tolerance clause of merge_duplicate_points on runtime "
+    "coordinates, arbitrary compositions on concrete meshes (each transformation is covered on its own).",
+    technique="constant-table analysis with exact rational geometry; algebraic value numbering for symbolic coordinates",
+)
+
 NOT_APPLICABLE = {}
 
 TODO_REASON = "check not built yet in this session (static rule designed in DESIGN.md; will be claimed once its checker is committed)"
